@@ -42,13 +42,27 @@ class OperatorDict(Mapping):
     def __len__(self):
         return len(self.operator_dict)
 
+    def _bind(self, func):
+        """
+        Bind :code:`func` in the numspace of the algebra under a name that no other generated function uses.
+        Generated names only encode which blades are present, not their order, and user supplied
+        names need not be unique, while compiled functions refer to each other by name.
+        """
+        numspace = self.algebra.numspace
+        bound = self.algebra.wrapper(func) if self.algebra.wrapper else func
+        name, count = func.__name__, 0
+        while numspace.setdefault(name, bound) is not bound:
+            count += 1
+            name = f'{func.__name__}_v{count}'
+        func.__name__ = name
+
     def __getitem__(self, keys_in: Tuple[Tuple[int]]):
         if keys_in not in self.operator_dict:
             # Make symbolic multivectors for each set of keys and generate the code.
             mvs = [self.algebra.multivector(name=name, keys=keys, symbolcls=self.codegen_symbolcls)
                    for name, keys in zip(string.ascii_lowercase, keys_in)]
             keys_out, func = do_codegen(self.codegen, *mvs)
-            self.algebra.numspace[func.__name__] = self.algebra.wrapper(func) if self.algebra.wrapper else func
+            self._bind(func)
             self.operator_dict[keys_in] = (keys_out, func)
         return self.operator_dict[keys_in]
 
@@ -132,7 +146,7 @@ class UnaryOperatorDict(OperatorDict):
         if keys_in not in self.operator_dict:
             mv = self.algebra.multivector(name='a', keys=keys_in, symbolcls=self.codegen_symbolcls)
             keys_out, func = do_codegen(self.codegen, mv)
-            self.algebra.numspace[func.__name__] = self.algebra.wrapper(func) if self.algebra.wrapper else func
+            self._bind(func)
             self.operator_dict[keys_in] = (keys_out, func)
         return self.operator_dict[keys_in]
 
@@ -158,7 +172,7 @@ class Registry(OperatorDict):
             tapes = [TapeRecorder(algebra=self.algebra, expr=name, keys=keys)
                      for name, keys in zip(string.ascii_lowercase, keys_in)]
             keys_out, func = do_compile(self.codegen, *tapes)
-            self.algebra.numspace[func.__name__] = self.algebra.wrapper(func) if self.algebra.wrapper else func
+            self._bind(func)
             self.operator_dict[keys_in] = (keys_out, func)
         return self.operator_dict[keys_in]
 
